@@ -1,3 +1,442 @@
-/- stub: model `EventPorts` (to be written) -/
+/-
+L1 (API-call atomic) model of the EVENT messaging pattern at port level:
+`iceoryx2/src/port/{notifier,listener}.rs`, `service/dynamic_config/event.rs` (listener / notifier
+registries: `Container` = fixed slots + LIFO free-index list + change counter),
+`service/builder/event.rs` + `service/static_config/event.rs` (limits, lifecycle event ids, deadline),
+`service/mod.rs` (`ServiceState::drop`, `__internal_remove_node_from_service`, `send_dead_node_signal`),
+`node/mod.rs` (dead node cleanup).
+
+What is NOT here: the hand-shake inside one listener's event concept (bit set + trigger), which is
+modelled at atomic-step level in `Iox2/Model/EventProto.lean`.  At port level a listener's event
+concept is its set of pending ids (`Lis.pending`).
+
+Several nodes ("parts": node handle + service handle) share the service; ports keep the service
+state of their node alive, the service state keeps the node alive (reference counting is derived:
+a port is referenced by the registry entry it owns).
+
+Ghost fields (`hist`, `Lis.mark`) are written but never read by the transitions.
+-/
 namespace Iox2.EventPorts
+
+structure Cfg where
+  maxNot : Nat
+  maxLis : Nat
+  maxNodes : Nat
+  idMax : Nat                 -- event_id_max_value
+  created : Option Nat        -- notifier_created_event
+  dropped : Option Nat        -- notifier_dropped_event
+  dead : Option Nat           -- notifier_dead_event
+  deadline : Nat := 0         -- 0: no deadline, 1: a deadline that is never missed, 2: a deadline that is always missed
+  ipc : Bool := true
+deriving Repr
+
+/-- `Container<T>` of the dynamic config: slots, the index set's free list (LIFO), change counter.
+The payload is the label of the port that owns the entry. -/
+structure Reg where
+  slots : List (Option Nat)
+  free : List Nat
+  counter : Nat := 0
+deriving Repr
+
+def Reg.init (cap : Nat) : Reg := { slots := List.replicate cap none, free := List.range cap }
+
+/-- `Container::add`: `acquire_raw_index` pops the head of the free list -/
+def Reg.add (r : Reg) (a : Nat) : Option (Reg × Nat) :=
+  match r.free with
+  | [] => none
+  | i :: rest => some ({ slots := r.slots.set i (some a), free := rest, counter := r.counter + 1 }, i)
+
+/-- `Container::remove`: `release_raw_index` pushes the index -/
+def Reg.remove (r : Reg) (i : Nat) : Reg :=
+  { slots := r.slots.set i none, free := i :: r.free, counter := r.counter + 1 }
+
+def Reg.labels (r : Reg) : List Nat := r.slots.filterMap id
+def Reg.len (r : Reg) : Nat := r.labels.length
+
+/-- `Container::recover`: every entry that satisfies `p` is released, ascending index order -/
+def Reg.removeWhere (r : Reg) (p : Nat → Bool) : Nat → Reg
+  | 0 => r
+  | i + 1 =>
+    let r := Reg.removeWhere r p i
+    match r.slots.getD i none with
+    | some a => if p a then r.remove i else r
+    | none => r
+
+inductive St where
+  | alive     -- the port object exists
+  | dead      -- abandoned by a node that died; its resources wait for the cleanup
+  | gone
+deriving DecidableEq, Repr
+
+structure Lis where
+  node : Nat
+  slot : Nat
+  st : St := .alive
+  pending : List Nat := []    -- the ids the event concept holds (ascending, no duplicates)
+  mark : Nat                  -- ghost: `hist.length` at creation / at the last wait
+deriving Repr
+
+structure Noti where
+  node : Nat
+  slot : Nat
+  st : St := .alive
+  defId : Nat
+  snapCtr : Nat               -- `list_state.current_change_counter`
+  snap : List (Option Nat)    -- `list_state`: the listener registry as last seen
+  conns : List (Option Nat)   -- `connections`: per listener slot, the listener connected to
+deriving Repr
+
+structure Part where
+  handle : Bool := true       -- the `Node` object exists (or was abandoned and not yet cleaned up)
+  svc : Bool := true          -- the `PortFactory` object, likewise
+  dead : Bool := false
+  dirLeft : Bool := false     -- the node's directory survived the node
+deriving Repr
+
+structure World where
+  cfg : Cfg
+  lisReg : Reg
+  notReg : Reg
+  liss : Nat → Option Lis := fun _ => none
+  nots : Nat → Option Noti := fun _ => none
+  parts : Nat → Option Part := fun _ => none
+  partKeys : List Nat := []
+  hist : List Nat := []       -- ghost: every id some notify call (or lifecycle emission) sent out, in order
+
+def World.init (c : Cfg) : World :=
+  { cfg := c, lisReg := Reg.init c.maxLis, notReg := Reg.init c.maxNot,
+    parts := fun k => if k = 0 then some {} else none, partKeys := [0] }
+
+def setL (w : World) (l : Nat) (x : Lis) : World := { w with liss := fun a => if a = l then some x else w.liss a }
+def setN (w : World) (n : Nat) (x : Noti) : World := { w with nots := fun a => if a = n then some x else w.nots a }
+def setP (w : World) (k : Nat) (x : Part) : World := { w with parts := fun a => if a = k then some x else w.parts a }
+
+/-! ### reference structure: who keeps what alive -/
+
+def lisNode (w : World) (l : Nat) : Option Nat := (w.liss l).map (·.node)
+def notNode (w : World) (n : Nat) : Option Nat := (w.nots n).map (·.node)
+
+/-- ports of node `k` that still hold their registry entry -/
+def lisOf (w : World) (k : Nat) : List Nat := w.lisReg.labels.filter fun l => lisNode w l = some k
+def notOf (w : World) (k : Nat) : List Nat := w.notReg.labels.filter fun n => notNode w n = some k
+
+/-- the `ServiceState` of node `k` exists (kept by the service handle and by every port): the node is registered in the service -/
+def svcCore (w : World) (k : Nat) : Bool :=
+  match w.parts k with
+  | some P => P.svc || !(lisOf w k).isEmpty || !(notOf w k).isEmpty
+  | none => false
+
+/-- the `SharedNode` of node `k` exists (kept by the node handle and the service state) -/
+def nodeCore (w : World) (k : Nat) : Bool :=
+  match w.parts k with
+  | some P => P.handle || svcCore w k
+  | none => false
+
+def nodeCount (w : World) : Nat := (w.partKeys.filter (svcCore w)).length
+def serviceExists (w : World) : Bool := w.partKeys.any (svcCore w)
+
+/-! ### notifier (`notifier.rs`) -/
+
+/-- the listener's event concept can be opened -/
+def conceptExists (w : World) (l : Nat) : Bool :=
+  match w.liss l with
+  | some L => L.st != .gone
+  | none => false
+
+/-- `ListenerConnections::populate_listener_channels` -/
+def populate (w : World) (N : Noti) : Noti :=
+  { N with conns := N.snap.mapIdx fun i s =>
+      match s with
+      | none => none
+      | some l => if N.conns.getD i none = some l then some l
+                  else if conceptExists w l then some l else none }
+
+/-- `ListenerConnections::update_connections` -/
+def updateConns (w : World) (N : Noti) : Noti :=
+  if N.snapCtr = w.lisReg.counter then N
+  else populate w { N with snapCtr := w.lisReg.counter, snap := w.lisReg.slots }
+
+def insertId (x : Nat) : List Nat → List Nat
+  | [] => [x]
+  | y :: ys => if x < y then x :: y :: ys else if x = y then y :: ys else y :: insertId x ys
+
+def targets (N : Noti) : List Nat := N.conns.filterMap id
+
+/-- `connection.notifier.notify(value)` returns `Ok`: the listener lives, or it is dead but was left in state
+NOTIFIED (a notification was pending when it died: no trigger is sent, nothing can fail) -/
+def reaches (w : World) (l : Nat) : Bool :=
+  match w.liss l with
+  | some L => L.st = .alive || (L.st = .dead && !L.pending.isEmpty)
+  | none => false
+
+/-- the id is activated in the event concept of every target (what a dead listener's concept holds is never read again) -/
+def deliver (w : World) (ts : List Nat) (id : Nat) : World :=
+  { w with liss := fun l =>
+      match w.liss l with
+      | some L => if l ∈ ts ∧ L.st = .alive then some { L with pending := insertId id L.pending } else some L
+      | none => none }
+
+inductive Err where
+  | exceedsNotifiers | exceedsListeners | exceedsNodes | doesNotExist | outOfBounds | missedDeadline
+deriving DecidableEq, Repr
+
+/-- `Notifier::__internal_notify` -/
+def notifyCore (w : World) (n : Nat) (N : Noti) (id : Nat) : World × Except Err Nat :=
+  let N := updateConns w N
+  let w : World := setN w n N
+  if w.cfg.idMax < id then (w, .error .outOfBounds) else
+  let ts := targets N
+  let cnt := (ts.filter (reaches w)).length
+  let w : World := { deliver w ts id with hist := w.hist ++ [id] }
+  -- `handle_deadline`: after the delivery
+  if w.cfg.deadline = 2 then (w, .error .missedDeadline) else (w, .ok cnt)
+
+/-! ### operations -/
+
+inductive Op where
+  | «open» (k : Nat)
+  | cnot (n : Nat) (defId : Option Nat) (k : Nat)
+  | dnot (n : Nat)
+  | clis (l k : Nat)
+  | dlis (l : Nat)
+  | notify (n : Nat)
+  | notifyId (n id : Nat)
+  | wait (l : Nat)
+  | count (k : Nat)
+  | dnode (k : Nat)
+  | dsvc (k : Nat)
+  | kill (k : Nat)
+  | cleanup (k : Nat)
+  | ls
+deriving Repr
+
+inductive Out where
+  | ok | dup | none | noNode | noService | dead
+  | okN (k : Nat)
+  | ids (l : List Nat)
+  | cnt (n l : Nat)
+  | cleaned (c : Nat)
+  | err (e : Err)
+  | res (r : List (String × Nat))
+deriving DecidableEq, Repr
+
+/-- a port of node `k` was dropped: when its core was the last owner of the node, the node's directory
+cannot be removed (the port tag inside it is removed only afterwards) -/
+def afterPortDrop (before after : World) (k : Nat) : World :=
+  if nodeCore before k && !nodeCore after k then
+    match after.parts k with
+    | some P => setP after k { P with dirLeft := true }
+    | none => after
+  else after
+
+/-- `send_dead_node_signal` -/
+def deadSignal (w : World) : World :=
+  -- a temporary node opens the service
+  if w.cfg.maxNodes ≤ nodeCount w then w else
+  if w.lisReg.len = 0 then w else
+  match w.cfg.dead with
+  | none => w
+  | some id =>
+    -- a temporary notifier (`new_without_auto_event_emission`, nothing on drop) takes a slot and gives it back
+    match w.notReg.add 0 with
+    | none => w
+    | some (reg, i) =>
+      let w := { w with notReg := reg.remove i }
+      if w.cfg.idMax < id then w
+      else { deliver w w.lisReg.labels id with hist := w.hist ++ [id] }
+
+/-- `__internal_remove_node_from_service` + the removal of the node's own files, for one dead node -/
+def cleanNode (acc : World × Nat) (d : Nat) : World × Nat :=
+  let w := acc.1
+  match w.parts d with
+  | none => acc
+  | some P =>
+    if !(P.dead && nodeCore w d) then acc else
+    let hadSvc := svcCore w d
+    let nn := (notOf w d).length
+    let isL := fun l => lisNode w l = some d
+    let isN := fun n => notNode w n = some d
+    let w1 : World :=
+      { w with
+        lisReg := w.lisReg.removeWhere isL w.lisReg.slots.length,
+        notReg := w.notReg.removeWhere isN w.notReg.slots.length,
+        liss := fun l => match w.liss l with
+          | some L => if L.node = d ∧ L.st = .dead then some { L with st := .gone, pending := [] } else some L
+          | none => none,
+        nots := fun n => match w.nots n with
+          | some N => if N.node = d ∧ N.st = .dead then some { N with st := .gone } else some N
+          | none => none }
+    let w2 := setP w1 d { P with handle := false, svc := false, dirLeft := false }
+    let w3 := if hadSvc && serviceExists w2 && nn != 0 then deadSignal w2 else w2
+    (w3, acc.2 + 1)
+
+/-- (kind, count) pairs in the order of the kind names -/
+def resources (w : World) : List (String × Nat) :=
+  if !w.cfg.ipc then [] else
+  let nc := (w.partKeys.filter (nodeCore w)).length
+  let dirs := (w.partKeys.filter fun k => nodeCore w k || (match w.parts k with | some P => P.dirLeft | none => false)).length
+  let sv := if serviceExists w then 1 else 0
+  let all := [("details", nc), ("dynamic", sv), ("event", w.lisReg.len), ("event_mgmt", w.lisReg.len),
+              ("node_monitor", nc), ("node_monitor_context", nc), ("node_monitor_owner_lock", nc),
+              ("nodedir", dirs), ("port_tag", w.lisReg.len + w.notReg.len), ("service", sv),
+              ("service_tag", nodeCount w)]
+  all.filter (·.2 ≠ 0)
+
+/-- the part `k` can create ports: its service handle exists -/
+def usable (w : World) (k : Nat) : Except Out Part :=
+  match w.parts k with
+  | none => .error .noNode
+  | some P => if P.dead then .error .dead else if !P.svc then .error .noService else .ok P
+
+def outOfNotify (r : Except Err Nat) : Out :=
+  match r with
+  | .ok c => .okN c
+  | .error e => .err e
+
+def step (w : World) : Op → World × Out
+  | .open k =>
+    if (w.parts k).isSome then (w, .dup) else
+    -- `Builder::open`: the service must exist, the node registers itself
+    if !serviceExists w then (w, .err .doesNotExist) else
+    if w.cfg.maxNodes ≤ nodeCount w then (w, .err .exceedsNodes) else
+    ({ setP w k {} with partKeys := w.partKeys ++ [k] }, .ok)
+  | .cnot n d k =>
+    if (w.nots n).isSome then (w, .dup) else
+    match usable w k with
+    | .error o => (w, o)
+    | .ok _ =>
+      -- `Notifier::new_without_auto_event_emission`
+      let N0 : Noti := { node := k, slot := 0, defId := d.getD 0, snapCtr := w.lisReg.counter, snap := w.lisReg.slots,
+                         conns := List.replicate w.lisReg.slots.length none }
+      let N1 := populate w N0
+      match w.notReg.add n with
+      | none => (w, .err .exceedsNotifiers)
+      | some (reg, slot) =>
+        let N2 := { N1 with slot := slot }
+        let w1 := setN { w with notReg := reg } n N2
+        -- `Notifier::new`: the notifier_created_event, failures are logged only
+        match w.cfg.created with
+        | some c => ((notifyCore w1 n N2 c).1, .ok)
+        | none => (w1, .ok)
+  | .dnot n =>
+    match w.nots n with
+    | none => (w, .none)
+    | some N =>
+      if N.st ≠ .alive then (w, .none) else
+      -- `Drop for Notifier`: the notifier_dropped_event first, then the registry entry is released
+      let w1 := match w.cfg.dropped with
+        | some c => (notifyCore w n N c).1
+        | none => w
+      let N1 := (w1.nots n).getD N
+      let w2 := setN { w1 with notReg := w1.notReg.remove N.slot } n
+                  { N1 with st := .gone, conns := N1.conns.map fun _ => none }
+      (afterPortDrop w1 w2 N.node, .ok)
+  | .clis l k =>
+    if (w.liss l).isSome then (w, .dup) else
+    match usable w k with
+    | .error o => (w, o)
+    | .ok _ =>
+      -- `Listener::new`: event concept first, registry entry last
+      match w.lisReg.add l with
+      | none => (w, .err .exceedsListeners)
+      | some (reg, slot) =>
+        (setL { w with lisReg := reg } l { node := k, slot := slot, mark := w.hist.length }, .ok)
+  | .dlis l =>
+    match w.liss l with
+    | none => (w, .none)
+    | some L =>
+      if L.st ≠ .alive then (w, .none) else
+      let w2 := setL { w with lisReg := w.lisReg.remove L.slot } l { L with st := .gone, pending := [] }
+      (afterPortDrop w w2 L.node, .ok)
+  | .notify n =>
+    match w.nots n with
+    | none => (w, .none)
+    | some N =>
+      if N.st ≠ .alive then (w, .none) else
+      let r := notifyCore w n N N.defId
+      (r.1, outOfNotify r.2)
+  | .notifyId n id =>
+    match w.nots n with
+    | none => (w, .none)
+    | some N =>
+      if N.st ≠ .alive then (w, .none) else
+      let r := notifyCore w n N id
+      (r.1, outOfNotify r.2)
+  | .wait l =>
+    match w.liss l with
+    | none => (w, .none)
+    | some L =>
+      if L.st ≠ .alive then (w, .none) else
+      (setL w l { L with pending := [], mark := w.hist.length }, .ids L.pending)
+  | .count k =>
+    match usable w k with
+    | .error o => (w, o)
+    | .ok _ => (w, .cnt w.notReg.len w.lisReg.len)
+  | .dnode k =>
+    match w.parts k with
+    | none => (w, .noNode)
+    | some P =>
+      if P.dead then (w, .dead) else
+      if !P.handle then (w, .none) else (setP w k { P with handle := false }, .ok)
+  | .dsvc k =>
+    match w.parts k with
+    | none => (w, .noNode)
+    | some P =>
+      if P.dead then (w, .dead) else
+      if !P.svc then (w, .none) else (setP w k { P with svc := false }, .ok)
+  | .kill k =>
+    match w.parts k with
+    | none => (w, .noNode)
+    | some P =>
+      if P.dead then (w, .dead) else
+      -- the process of node `k` dies: everything it holds stays where it is
+      ({ setP w k { P with dead := true } with
+          liss := fun l => match w.liss l with
+            | some L => if L.node = k ∧ L.st = .alive then some { L with st := .dead } else some L
+            | none => none,
+          nots := fun n => match w.nots n with
+            | some N => if N.node = k ∧ N.st = .alive then some { N with st := .dead } else some N
+            | none => none }, .ok)
+  | .cleanup k =>
+    match w.parts k with
+    | none => (w, .noNode)
+    | some P =>
+      if P.dead then (w, .dead) else
+      if !P.handle then (w, .none) else
+      let r := w.partKeys.foldl cleanNode (w, 0)
+      (r.1, .cleaned r.2)
+  | .ls => (w, .res (resources w))
+
+/-! ### canonical rendering (the harness prints the same) -/
+
+def Err.render : Err → String
+  | .exceedsNotifiers => "err:NotifierCreateError::ExceedsMaxSupportedNotifiers"
+  | .exceedsListeners => "err:ListenerCreateError::ExceedsMaxSupportedListeners"
+  | .exceedsNodes => "err:EventOpenError::ExceedsMaxNumberOfNodes"
+  | .doesNotExist => "err:EventOpenError::DoesNotExist"
+  | .outOfBounds => "err:NotifierNotifyError::EventIdOutOfBounds"
+  | .missedDeadline => "err:NotifierNotifyError::MissedDeadline"
+
+def Out.render : Out → String
+  | .ok => "ok" | .dup => "dup" | .none => "none" | .noNode => "no-node" | .noService => "no-service" | .dead => "dead"
+  | .okN k => s!"ok:{k}"
+  | .ids l => "[" ++ String.intercalate "," (l.map toString) ++ "]"
+  | .cnt n l => s!"n={n},l={l}"
+  | .cleaned c => s!"c={c},f=0"
+  | .err e => e.render
+  | .res r => if r.isEmpty then "-" else String.intercalate "," (r.map fun (k, c) => s!"{k}={c}")
+
+/-! ### reachability -/
+
+def run (w : World) (ops : List Op) : World := ops.foldl (fun w op => (step w op).1) w
+
+/-- what the service builder guarantees about a created service (`adjust_attributes_to_meaningful_values`) -/
+def Cfg.Sane (c : Cfg) : Prop := 1 ≤ c.maxNot ∧ 1 ≤ c.maxLis ∧ 1 ≤ c.maxNodes
+
+instance (c : Cfg) : Decidable c.Sane := by unfold Cfg.Sane; exact inferInstance
+
+inductive Reach (c : Cfg) : World → Prop
+  | init : Reach c (World.init c)
+  | step {w : World} (op : Op) : Reach c w → Reach c (step w op).1
+
 end Iox2.EventPorts
